@@ -15,6 +15,8 @@ def run(ctx):
     ctx.step(_s6, ctx)
     ctx.step(_p12u, ctx)
     ctx.step(_s7, ctx)
+    ctx.step(_s8, ctx)
+    ctx.step(_s9, ctx)
 
 
 # ----------------------------------------------------------------------------------------
@@ -116,6 +118,17 @@ def _p5n(ctx):
                                 'other': 'a value computed in %s' % short_fn(where)}[k])
             else:
                 bad.append('a computed value')
+            # .. in a cell of its own: the Reader built here points at a counter allocated here (a recycled cell keeps the
+            # count its previous stream ended with)
+            for (rn, rsi, rrv) in x.aggs(r'read_cursor::Reader::Reader$'):
+                re_ = g.strip(x.agg_expr(rn, rsi))
+                if re_[0] != 'agg' or 'meta' not in re_[3]:
+                    continue
+                mv = re_[4][re_[3].index('meta')]
+                stale = [s_ for s_ in g.walk(mv) if s_[0] in ('param', 'unknown', 'hofarg') or
+                         (s_[0] == 'call' and not re.search(r'alloc::allocate$|(^|::)ptr::|cast|as_ptr|NonNull', g.call_name(s_[1]) or ''))]
+                if stale:
+                    bad.append('a counter cell that is not allocated for this stream (%s)' % (g.call_name(stale[0][1]) if stale[0][0] == 'call' else 'handed in'))
             ok = not bad
             ctx.add('P5n', 'T-FLOW', root, ok, 'a new stream is published with one registered consumer (the handle its creation returns)' if ok else
                     'a new stream\'s consumer count starts at %s instead of 1: with more registrations than handles the last handle\'s removal is never recognised (the stream stays in the list and holds the writers back for ever); with fewer a live handle\'s stream is removed under it'
@@ -343,6 +356,33 @@ def _p4r(ctx):
                 '%s returns a reference into a slot of the ring (QueueEntry.val): it stays usable after a later receive on the same handle (all receives take &self) handed the slot back, and is then read while a writer overwrites and drops the value'
                 % short_fn(name), sub='slot-ref-escapes')
     ctx.floor('P4r', n, 1, 'functions of the queue layers that return a reference or pointer')
+    # a view hands `&T` into the slot to a closure for the duration of the call: the closure's bound must be higher-ranked
+    # in the reference's lifetime (`for<'r> F: FnOnce(&'r T) -> R`).  With a named lifetime of the method (`&'a self`,
+    # `F: FnOnce(&'a T) -> R`) the result type R may contain the reference, which then outlives the position commit
+    v = 0
+    for im in F.impls:
+        adt = im['self_ty'].get('adt') or ''
+        if not re.match(r'^(multiqueue|broadcast|mpmc)::', adt):
+            continue
+        for it in im['items']:
+            preds = it.get('predicates')
+            if preds is None:
+                if it.get('kind') == 'AssocFn':
+                    raise CheckError('P4r: the fact file has no method predicates (driver older than the rules)')
+                continue
+            for p_ in preds:
+                m = re.match(r"^(for<([^>]*)> )?(\w+): (Fn|FnMut|FnOnce)\((.*)\)$", p_)
+                if not m or '&' not in m.group(5):
+                    continue
+                v += 1
+                bound = set(re.findall(r"'\w+", m.group(2) or ''))
+                used = set(re.findall(r"&'(\w+)", m.group(5)))
+                free = sorted(l_ for l_ in used if "'" + l_ not in bound)
+                ok = not free
+                ctx.add('P4r', 'T-WHO', it['path'], ok, 'closure bound is higher-ranked in the lifetime of the reference it is given' if ok else
+                        "%s: the closure bound `%s` names a lifetime of the method ('%s) instead of being higher-ranked: the closure's result may contain the `&T` it was given, i.e. a reference into the slot that is still usable after the receive handed the slot back"
+                        % (short_fn(it['path']), p_, ", '".join(free)), sub='view-hrtb|%s' % m.group(3))
+    ctx.floor('P4r', v, 8, 'closure bounds that take a reference (views, iterators)')
 
 
 # ----------------------------------------------------------------------------------------
@@ -490,3 +530,158 @@ def _s7(ctx):
     if n == 0:
         # the rule has no subject on a tree that never drives its iterators itself (the reference tree): record that
         ctx.add('S7', 'T-SIB', ctx.fn1(r'^multiqueue::MultiQueue::<.*>::try_recv$'), True, 'no receive iterator is driven by an adaptor inside the crate', sub='none')
+
+
+# ----------------------------------------------------------------------------------------
+# S8: the handle types keep their kinds apart.
+#  (a) no function turns a futures receive handle into a plain one: the plain receiver's receives and its destructor do
+#      not wake the sink tasks parked on the producer list of the (futures) queue it still reads from;
+#  (b) a single-consumer handle gives no access to the multi-consumer API of its stream: no Deref / AsRef / Borrow to
+#      another handle type, no Clone - a second consumer next to a view (which takes no pin and commits with a plain
+#      store) receives values twice and moves the position backwards.
+# ----------------------------------------------------------------------------------------
+
+FUT_RECV_RE = r'(^|::)(FutInnerRecv|FutInnerUniRecv|BroadcastFutReceiver|BroadcastFutUniReceiver|MPMCFutReceiver|MPMCFutUniReceiver)<'
+PLAIN_RECV_RE = r'(^|::|<|\(| )(InnerRecv|BroadcastReceiver|BroadcastUniReceiver|MPMCReceiver|MPMCUniReceiver)<'
+HANDLE_ADT_RE = r'^(multiqueue::(InnerSend|InnerRecv|FutInnerSend|FutInnerRecv|FutInnerUniRecv)|(broadcast|mpmc)::\w*(Sender|Receiver))$'
+
+
+def _s8(ctx):
+    F = ctx.F
+    n = 0
+    for im in F.impls:
+        adt = im['self_ty'].get('adt') or ''
+        for it in im['items']:
+            sig = it.get('sig')
+            if not sig or '->' not in sig:
+                continue
+            m = re.match(r"^(?:for<[^>]*> )?(?:unsafe )?fn\((.*)\) -> (.*)$", sig)
+            if not m:
+                continue
+            params, ret = m.group(1), m.group(2)
+            first = params.split(', ')[0] if params else ''
+            if not re.search(FUT_RECV_RE, first) or first.lstrip().startswith('&'):
+                continue   # by-value conversions only (a borrowed futures handle is still there afterwards)
+            n += 1
+            ok = not (re.search(PLAIN_RECV_RE, ret) and not re.search(FUT_RECV_RE, ret))
+            ctx.add('S8', 'T-SIB', it['path'], ok, 'a futures receive handle is only converted into futures receive handles' if ok else
+                    '%s turns a futures receive handle into a plain one (%s): receives through it and its destructor free slots / remove the stream without waking the sink tasks parked on the queue\'s producer list'
+                    % (short_fn(it['path']), ret[:80]), sub='fut-to-plain')
+    ctx.floor('S8', n, 4, 'by-value methods of the futures receive handles')
+    uni = 0
+    for path in sorted(F.adts):
+        if not re.match(HANDLE_ADT_RE, path):
+            continue
+        is_uni = 'Uni' in path
+        uni += is_uni
+        bad = []
+        for im in F.impls:
+            if (im['self_ty'].get('adt') or (im['self_ty'].get('inner') or {}).get('adt')) != path or not im.get('trait'):
+                continue
+            tr = im['trait']
+            if re.search(r'ops::(Deref|DerefMut)$|convert::AsRef$|convert::AsMut$|borrow::Borrow(Mut)?$', tr):
+                bad.append(tr.rsplit('::', 1)[-1])
+            if is_uni and re.search(r'clone::Clone$', tr):
+                bad.append('Clone')
+        ok = not bad
+        ctx.add('S8', 'T-SIB', path, ok, '%s gives no access to another handle kind' % short(path) if ok else
+                '%s implements %s: the API of another handle kind (clone, add_stream, the multi-consumer receives) becomes reachable from this handle; next to a single-consumer view - no pin, plain-store commit - a second consumer receives values twice and moves the stream position backwards'
+                % (short(path), ', '.join(sorted(set(bad)))), sub='kind-escape')
+    ctx.floor('S8', uni, 5, 'single-consumer handle types')
+
+
+# ----------------------------------------------------------------------------------------
+# S9: no state change lives inside a debug assertion.  `debug_assert!(self.writers.fetch_add(1) < MAX)` performs the
+# increment only when debug assertions are compiled in: the release build (which the thorough tier also analyses)
+# simply lacks it, the quick tier - dev MIR only - sees a complete protocol.  In the dev MIR `cfg!(debug_assertions)`
+# is a literal `true` from a macro expansion that a switch tests; the blocks that only this switch's taken edge leads
+# to must not contain an atomic write, a lock, a Cell::set or a notification.
+# ----------------------------------------------------------------------------------------
+
+EFFECT_RE = r'atomic::Atomic(\w*)(::<.*>)?::(fetch_\w+|store|swap|compare_exchange\w*|compare_and_swap)$|Mutex(::<.*>)?::(lock|try_lock)$|Cell(::<.*>)?::(set|replace|take)$|::notify(_all|_one)?$|Condvar::'
+
+
+def _s9(ctx):
+    F = ctx.F
+
+    def has_effect(fname, depth=0):
+        f_ = F.fns.get(fname)
+        if f_ is None or depth > 2:
+            return False
+        for b_ in f_['blocks']:
+            t_ = b_['term']
+            if t_['k'] == 'call' and not b_['cleanup']:
+                nm_ = t_.get('resolved') or t_.get('fn') or ''
+                if re.search(EFFECT_RE, nm_) or (nm_ in F.fns and has_effect(nm_, depth + 1)):
+                    return True
+        return False
+
+    n = 0
+    for name in sorted(F.fns):
+        f = F.fns[name]
+        if f.get('from_expansion'):
+            continue
+        blocks = f['blocks']
+        succs = {}
+        for i, b in enumerate(blocks):
+            t = b['term']
+            k = t['k']
+            out = []
+            if k == 'goto':
+                out = [t['t']]
+            elif k == 'switch':
+                out = list(t['targets']) + [t['otherwise']]
+            elif k in ('call', 'drop', 'assert'):
+                out = [t['t']] if t.get('t') is not None else []
+            elif k == 'otherterm':
+                out = list(t.get('succ') or [])
+            succs[i] = [o for o in out if o is not None and o < len(blocks) and not blocks[o]['cleanup']]
+
+        def reach(skip_edge=None):
+            seen, st = set(), [0]
+            while st:
+                x_ = st.pop()
+                if x_ in seen:
+                    continue
+                seen.add(x_)
+                for y_ in succs.get(x_, ()):
+                    if (x_, y_) != skip_edge:
+                        st.append(y_)
+            return seen
+        allb = None
+        for i, b in enumerate(blocks):
+            t = b['term']
+            if t['k'] != 'switch' or not b.get('exp') or t['op'].get('k') not in ('copy', 'move') or t['op']['pl']['p']:
+                continue
+            l = t['op']['pl']['l']
+            lit = [s for s in b['stmts'] if s['k'] == 'assign' and s['pl']['l'] == l and not s['pl']['p'] and s.get('exp') and
+                   s['rv']['k'] == 'use' and s['rv']['op']['k'] == 'const' and s['rv']['op'].get('v') is not None and (s['rv']['op'].get('ty') in ('bool', None) or True)]
+            if not lit:
+                continue
+            v = str(lit[-1]['rv']['op']['v'])
+            taken = None
+            for val, tg in zip(t['vals'], t['targets']):
+                if str(val) == v:
+                    taken = tg
+            if taken is None:
+                taken = t['otherwise']
+            n += 1
+            if allb is None:
+                allb = reach()
+            controlled = allb - reach(skip_edge=(i, taken))
+            bad = []
+            for c in sorted(controlled):
+                tc = blocks[c]['term']
+                if tc['k'] == 'call':
+                    nm = tc.get('resolved') or tc.get('fn') or ''
+                    if re.search(EFFECT_RE, nm) or (nm in F.fns and has_effect(nm)):
+                        bad.append('%s (line %s)' % (short_fn(nm), blocks[c].get('line')))
+            owner = name
+            while F.fns[owner]['kind'] == 'Closure' and F.fns[owner].get('parent') in F.fns:
+                owner = F.fns[owner]['parent']
+            ok = not bad
+            ctx.add('S9', 'T-SIB', owner, ok, 'a debug-only block without state changes' if ok else
+                    '%s performs %s inside a block that only exists when debug assertions are compiled in (`debug_assert!(..)` / `if cfg!(debug_assertions)`): the release build lacks the state change'
+                    % (short_fn(owner), ', '.join(bad[:2])), where='%s:%s' % (f.get('file', '?'), b.get('line', '?')), sub='debug-only|bb%d' % i)
+    if n == 0:
+        ctx.add('S9', 'T-SIB', ctx.fn1(r'^multiqueue::MultiQueue::<.*>::try_recv$'), True, 'no debug-only block in the crate (dev MIR) or the tree is analysed without debug assertions', sub='none')
